@@ -1,4 +1,5 @@
 import SpecVerif.Proofs.Lemmas.Object
+import SpecVerif.Proofs.Lemmas.ObjectF
 /-
   C07 — the `Spectrum` object is a correct cache: after any sequence of attribute assignments interleaved
   with explicit computations and reads, reading `psd` returns the estimate of the *final* attribute values
@@ -264,6 +265,140 @@ theorem nextPow2_spec (n : Nat) :
     exact absurd hi (Nat.not_le.mpr (hmin i (Nat.zero_le _) hlt))
   · intro h
     exact nextPow2_go_ge n 64 1 (by simpa using h)
+
+/-! ## 8. estimators that can fail (`Model/ObjectF.lean`)
+
+`ok a = false`: the estimator raises for the attribute snapshot `a`.  The clause of C07 at stake: a read after a FAILED
+computation must not hand out the stored array of the previous attributes — it has to behave like a fresh object with the
+same final attribute values, i.e. raise again. -/
+
+/-- with an estimator that never fails the extended machine IS the machine of sections 1–7 -/
+theorem objStepF_total (ok : Attrs → Bool) (hok : ∀ a, ok a = true) (s : ObjState) (op : ObjOp) :
+    objStepF ok s op = objStep s op := by
+  cases op <;> simp [objStepF, recomputeF, hok, objStep]
+  all_goals (split <;> rfl)
+
+/-- the extended invariant holds in every state reachable from a constructor, whatever fails -/
+theorem reachableF_inv (ok : Attrs → Bool) (a : Attrs) (par : Bool) (ops : List ObjOp) :
+    ObjInvF ok (objRunF ok (objInit a par) ops) :=
+  runF_inv ok _ ops (initF_inv ok a par)
+
+/-- In a reachable state a read of `psd` raises **iff** the estimator fails for the CURRENT attribute values —
+never because of, and never in spite of, what is stored. -/
+theorem readF_raises_iff (ok : Attrs → Bool) (s : ObjState) (h : ObjInvF ok s) :
+    (objStepF ok s .read).2 = true ↔ ok s.a = false := by
+  obtain ⟨hi, hc⟩ := h
+  rcases s with ⟨a, sides, cache, modified, rn, rs, par⟩
+  rcases cache with _ | ⟨snap, sd⟩
+  · cases hk : ok a <;> simp [objStepF, recomputeF, hk]
+  · cases modified
+    · have := (hi.2.2 rfl snap sd rfl).1
+      have := hc snap sd rfl
+      simp_all [objStepF]
+    · cases hk : ok a <;> simp [objStepF, recomputeF, hk]
+
+/-- a read that raises changes nothing at all: the object is still marked `modified` (or still has no PSD) -/
+theorem readF_fail_unchanged (ok : Attrs → Bool) (s : ObjState) (hr : (objStepF ok s .read).2 = true) :
+    (objStepF ok s .read).1 = s := by
+  simp only [objStepF, recomputeF] at *
+  split at hr
+  · split at hr
+    · simp at hr
+    · rename_i h1 h2; simp [h1, h2]
+  · simp at hr
+
+/-- a read that returns leaves the estimate of the CURRENT attributes in the object's `sides` -/
+theorem readF_ok_fresh (ok : Attrs → Bool) (s : ObjState) (h : ObjInvF ok s) (hok : ok s.a = true) :
+    (objStepF ok s .read).2 = false ∧
+    (objStepF ok s .read).1.cache = some (s.a, (objStepF ok s .read).1.sides) ∧
+    (objStepF ok s .read).1.a = s.a ∧ (objStepF ok s .read).1.modified = false := by
+  have e : objStepF ok s .read = objStep s .read := by
+    simp only [objStepF, recomputeF, hok, objStep, if_true]
+    split <;> rfl
+  rw [e]
+  have hr := read_fresh s h.1
+  exact ⟨hr.2.2.2, by rw [hr.1, hr.2.1], hr.2.1, hr.2.2.1⟩
+
+/-- **a failed read is not forgotten**: after a read that raised, every further read (any number of them, nothing assigned in
+between) raises as well — the stored array of the previous attribute values is never returned. -/
+theorem readF_fail_again (ok : Attrs → Bool) (s : ObjState) (hr : (objStepF ok s .read).2 = true) (n : Nat) :
+    objRunF ok s (List.replicate n .read) = s ∧
+    (objStepF ok (objRunF ok s (List.replicate n .read)) .read).2 = true := by
+  induction n with
+  | zero => exact ⟨rfl, hr⟩
+  | succ n ih =>
+    have : objRunF ok s (List.replicate (n + 1) .read) = s := by
+      rw [List.replicate_succ, objRunF, List.foldl_cons, readF_fail_unchanged ok s hr]
+      exact ih.1
+    exact ⟨this, by rw [this]; exact hr⟩
+
+/-- an explicit computation raises iff the estimator fails for the current attributes, and then changes nothing -/
+theorem callF_effect (ok : Attrs → Bool) (s : ObjState) :
+    ((objStepF ok s .call).2 = true ↔ ok s.a = false) ∧
+    ((objStepF ok s .call).2 = true → (objStepF ok s .call).1 = s) ∧
+    ((objStepF ok s .call).2 = false → (objStepF ok s .call).1 = recompute s) := by
+  cases hk : ok s.a <;> simp [objStepF, recomputeF, hk]
+
+/-- `sides = …` on an object whose stored PSD is not current and whose estimator fails: it raises and assigns nothing
+(neither the side nor the `modified` flag), so the stale array is still recognisably stale. -/
+theorem setSidesF_fail_unchanged (ok : Attrs → Bool) (s : ObjState) (arg : SideArg)
+    (hc : s.cache.isSome = true) (hm : s.modified = true) (hk : ok s.a = false) :
+    objStepF ok s (.setSides arg) = (s, true) := by
+  rcases s with ⟨a, sides, cache, modified, rn, rs, par⟩
+  rcases cache with _ | ⟨snap, sd⟩
+  · simp at hc
+  · simp only at hm hk
+    simp [objStepF, hm, hk]
+
+/-- a fresh object raises on its first read iff the estimator fails for its attributes -/
+theorem freshF_raises_iff (ok : Attrs → Bool) (a : Attrs) (par : Bool) :
+    (objStepF ok (objInit a par) .read).2 = true ↔ ok a = false :=
+  readF_raises_iff ok _ (initF_inv ok a par)
+
+/-- **C07 with failing computations, main statement.**  After ANY list of operations (some of which may have raised),
+reading `psd` behaves like a freshly constructed object with the same final attribute values: it raises iff the fresh
+object raises, and when both return, both hold the estimate of those final attribute values. -/
+theorem freshF_eq_reachable (ok : Attrs → Bool) (a : Attrs) (par par' : Bool) (ops : List ObjOp) :
+    let st := objRunF ok (objInit a par) ops
+    ((objStepF ok st .read).2 = (objStepF ok (objInit st.a par') .read).2) ∧
+    ((objStepF ok st .read).2 = false →
+       (objStepF ok st .read).1.cache = some (st.a, (objStepF ok st .read).1.sides) ∧
+       (objStepF ok (objInit st.a par') .read).1.cache =
+         some (st.a, (objStepF ok (objInit st.a par') .read).1.sides)) := by
+  intro st
+  have hinv := reachableF_inv ok a par ops
+  have h1 := readF_raises_iff ok st hinv
+  have h2 := freshF_raises_iff ok st.a par'
+  constructor
+  · cases hk : ok st.a
+    · rw [h1.mpr hk, h2.mpr hk]
+    · have e1 : (objStepF ok st .read).2 = false := by
+        cases hb : (objStepF ok st .read).2
+        · rfl
+        · rw [h1.mp hb] at hk; cases hk
+      have e2 : (objStepF ok (objInit st.a par') .read).2 = false := by
+        cases hb : (objStepF ok (objInit st.a par') .read).2
+        · rfl
+        · rw [h2.mp hb] at hk; cases hk
+      rw [e1, e2]
+  · intro hret
+    have hk : ok st.a = true := by
+      cases hk : ok st.a
+      · rw [h1.mpr hk] at hret; cases hret
+      · rfl
+    exact ⟨(readF_ok_fresh ok st hinv hk).2.1,
+           (readF_ok_fresh ok (objInit st.a par') (initF_inv ok st.a par') hk).2.1⟩
+
+/-- the history of the seeded change C07-m7: compute, enlarge NFFT, assign a record that is too short (here: the estimator
+needs `N ≥ 8`), read (raises), read again: raises again, nothing is stored for the new attributes, the old PSD is still
+marked stale -/
+example :
+    let ok : Attrs → Bool := fun a => decide (8 ≤ a.N)
+    let a0 : Attrs := ⟨1, false, 64, 64, 1, 0, false, 0, 0, 4, 8⟩
+    let st := objRunF ok (objInit a0 true) [.read, .setNfft 128, .setData 2 false 5, .read]
+    (objStepF ok st .read).2 = true ∧ st.modified = true ∧ st.cache = some (a0, Side.one) ∧
+      (objStepF ok st (.setSides .two)).2 = true ∧ (objStepF ok st (.setSides .two)).1.modified = true := by
+  decide
 
 /-! ## non-vacuity -/
 
